@@ -215,8 +215,9 @@ class CHECK(Check):
     thorough_budget_s = 900
     rule = ("matrices with 2..12 rows, 1..4 sensitive and 1..4 other columns, entries dyadic k/2^j (|k|<=12, j<=2) with "
             "per-column offsets; sensitive block generic / collinear / duplicated / constant / one-hot / more columns than rows; "
-            "ids by position in random order (ndarray float or int) or by name (DataFrame with shuffled string names), rarely a "
-            "repeated id; alpha in {0,1/4,1/2,3/4,1}; new data of 1..6 rows; distinct = distinct (X, ids, alpha, container, Xnew); "
+            "ids by position in random order (ndarray float or int) or by column LABEL (DataFrame; labels = shuffled strings, the default RangeIndex, or integers that "
+            "differ from the positions: shifted 1..m / 2.. / 10.., a permutation of 0..m-1, sparse; the same labels on the new data; "
+            "mixed str/int labels are rejected by sklearn and not generated), rarely a repeated id; alpha in {0,1/4,1/2,3/4,1}; new data of 1..6 rows; distinct = distinct (X, ids, alpha, container, Xnew); "
             "non-trivial = at least one non-constant sensitive column")
     explanation = ("theorems over the Lean model CorrRemover for all inputs; numpy.linalg.lstsq enters only through the normal "
                    "equations (checked on every case with the fitted beta_); correspondence: sensitive_mean_, fit_transform, "
@@ -228,7 +229,10 @@ class CHECK(Check):
                    "Gram-Schmidt residual and sample covariance in Fractions. Lifted-model-vs-oracle disagreements are HARNESS-ERRORs "
                    "only while Generated/CorrRemoverSrc.lean has the pinned content, else broken tie `C15.src_model_eq`.")
     trusted = ("numpy.linalg.lstsq is modelled by its defining property (normal equations Scᵀ(Z − Sc·beta) = 0), whose residual "
-               "is evaluated exactly by the driver for every fitted beta_",
+               "is evaluated exactly by the driver for every fitted beta_; this is assumed ONLY for the lifted rcond = None (numpy's "
+               "machine-precision cut-off; CorrL.lstsqAssumed, theorem lifted_lstsq_untruncated): an explicit numeric rcond in the source "
+               "is lifted as `some q`, under which nothing is assumed and the src_* theorems no longer elaborate; any other rcond is "
+               "refused; the rcond actually passed during fit is recorded and compared with the lifted one",
                "sklearn validate_data / DataFrame -> ndarray conversion (checked only through the correspondence)",
                "harness/lifters/corr_remover.py: symbolic inlining of fit / transform, entry-wise reading of numpy broadcasting "
                "(`S - mean` row-wise, `.dot(beta_)` as the row-by-matrix product, np.atleast_2d as identity on 2-d blocks), list / dict "
@@ -309,8 +313,28 @@ class CHECK(Check):
             if container == "ndarray" and allint and rng.random() < 0.5:
                 container = "ndarray_int"
             names = rng.sample(NAMES, m)
-            yield {"X": [[str(v) for v in r] for r in X], "ids": ids, "alpha": rng.choice(ALPHAS),
-                   "container": container, "names": names, "Xnew": [[str(v) for v in r] for r in Xnew], "kind": kind}
+            case = {"X": [[str(v) for v in r] for r in X], "ids": ids, "alpha": rng.choice(ALPHAS),
+                    "container": container, "names": names, "Xnew": [[str(v) for v in r] for r in Xnew], "kind": kind}
+            if container == "dataframe":
+                # column LABELS of the DataFrame (`sensitive_feature_ids` are given by label, for fit and for transform of new
+                # data): strings, the default RangeIndex, and integer labels that differ from the positions -- shifted (1..m,
+                # e.g. after an id column was dropped), a permutation of 0..m-1 (every label is ALSO a valid position of
+                # another column), sparse integers.  (Mixed str / int labels are rejected by sklearn's validate_data.)
+                lk = rng.choice(["str", "str", "range", "shifted", "shifted", "permuted", "permuted", "sparse"])
+                case["label_kind"] = lk
+                if lk == "shifted":
+                    k0 = rng.choice([1, 1, 2, 10])
+                    case["names"] = [k0 + c for c in range(m)]
+                elif lk == "permuted":
+                    perm = list(range(m))
+                    for _ in range(4):
+                        rng.shuffle(perm)
+                        if perm != list(range(m)):
+                            break
+                    case["names"] = perm
+                elif lk == "sparse":
+                    case["names"] = rng.sample(range(0, 4 * m + 3), m)
+            yield case
 
     def _relations(self, case):
         try:
@@ -331,6 +355,8 @@ class CHECK(Check):
         n, m = len(X), len(X[0])
         if case["container"] != "ndarray":
             yield dict(case, container="ndarray")
+        if case["container"] == "dataframe" and case.get("label_kind") in ("sparse", "permuted"):
+            yield dict(case, label_kind="shifted", names=[1 + c for c in range(m)])
         if len(Xn) > 1:
             yield dict(case, Xnew=Xn[:1])
         for i in range(n):
@@ -362,29 +388,56 @@ class CHECK(Check):
                     yield dict(case, X=X2)
 
     # ---------------------------------------------------------------- implementation
+    @staticmethod
+    def _labels(case):
+        """column labels of the DataFrame container, by position (strings or ints); the default RangeIndex for kind `range`"""
+        if case.get("label_kind") == "range":
+            return list(range(len(case["X"][0])))
+        return list(case["names"])
+
+    @staticmethod
+    def _label_code(lbl):
+        """labels as the code numbers the driver's `corrsrc.lookup df` works with (distinct labels -> distinct codes)"""
+        if isinstance(lbl, int):
+            return 1000 + lbl
+        return NAMES.index(lbl) + 1 if lbl in NAMES else 100 + sum(map(ord, lbl))
+
     def _build(self, case, M):
         rows = [[float(F(v)) for v in r] for r in M]
         if case["container"] == "ndarray_int":
             return np.array([[int(F(v)) for v in r] for r in M], dtype=np.int64)
         if case["container"] == "dataframe":
             import pandas as pd
-            return pd.DataFrame(rows, columns=case["names"])
+            if case.get("label_kind") == "range":
+                return pd.DataFrame(rows)
+            return pd.DataFrame(rows, columns=self._labels(case))
         return np.array(rows, dtype=float)
 
     def impl(self, case):
         from fairlearn.preprocessing import CorrelationRemover
         X, Xn = self._build(case, case["X"]), self._build(case, case["Xnew"])
-        ids = [case["names"][i] for i in case["ids"]] if case["container"] == "dataframe" else list(case["ids"])
+        ids = [self._labels(case)[i] for i in case["ids"]] if case["container"] == "dataframe" else list(case["ids"])
         alpha = float(F(case["alpha"]))
         ms = len(ids)
+        # the `rcond` np.linalg.lstsq is actually called with during fit (tie of the lifted `CorrRemoverSrc.lstsqRcond`)
+        seen_rcond = []
+        real_lstsq = np.linalg.lstsq
+
+        def spy_lstsq(a, b, rcond=None, *args, **kw):
+            seen_rcond.append("none" if rcond is None else repr(float(rcond)))
+            return real_lstsq(a, b, rcond, *args, **kw)
         try:
             cr = CorrelationRemover(sensitive_feature_ids=ids, alpha=alpha)
-            ft = cr.fit_transform(X)
+            np.linalg.lstsq = spy_lstsq
+            try:
+                ft = cr.fit_transform(X)
+            finally:
+                np.linalg.lstsq = real_lstsq
             mean = np.broadcast_to(np.asarray(cr.sensitive_mean_, dtype=float), (ms,))
             out = {"ft": fl(ft), "mean": [float(v) for v in mean],
                    "mean_shape": list(np.shape(cr.sensitive_mean_)),
                    "beta": fl(np.asarray(cr.beta_, dtype=float).reshape(ms, -1)),
-                   "tr": fl(cr.transform(X)), "new": fl(cr.transform(Xn))}
+                   "tr": fl(cr.transform(X)), "new": fl(cr.transform(Xn)), "rcond": seen_rcond}
             if case["alpha"] != "1":
                 out["ft1"] = fl(CorrelationRemover(sensitive_feature_ids=ids, alpha=1.0).fit_transform(X))
             else:
@@ -407,21 +460,21 @@ class CHECK(Check):
                f"corrsrc.transform {X} {ids} {em} {eb} {proto.rat(sp.alpha)}"]
         # `sensitive` of _split_X through the lifted _create_lookup table: by name (DataFrame) or by position (ndarray)
         if case["container"] == "dataframe":
-            code = lambda nm: NAMES.index(nm) + 1 if nm in NAMES else 100 + sum(map(ord, nm))  # noqa: E731
-            ls.append(f"corrsrc.lookup df {proto.lst([code(c) for c in case['names']])} {proto.lst([code(case['names'][i]) for i in case['ids']])}")
+            code, labels = self._label_code, self._labels(case)
+            ls.append(f"corrsrc.lookup df {proto.lst([code(c) for c in labels])} {proto.lst([code(labels[i]) for i in case['ids']])}")
         else:
             ls.append(f"corrsrc.lookup arr {sp.m} {ids}")
         # theorem output_independent_of_solution on the driver: two exact solutions, same alpha = 1 output
         ls += [f"corr.transform {X} {ids} {em} {eb} 1", f"corr.transform {X} {ids} {em} {proto.mat(sp.beta_alt)} 1"]
         if "exc" in o or "crash" in o or not self._usable(o, sp):
-            return ls
+            return ls + ["corrsrc.rcond"]           # always the LAST line
         mean, beta, a = proto.lst(o["mean"]), proto.mat(o["beta"]), proto.rat(sp.alpha)
         ls += [f"corr.normal {X} {ids} {mean} {beta}", f"corr.transform {X} {ids} {mean} {beta} {a}",
                f"corr.cov {X} {ids} {mean} {beta} {a}", f"corr.transform {Xn} {ids} {mean} {beta} {a}"]
         # lifted model with the fitted state
         ls += [f"corrsrc.normal {X} {ids} {beta}", f"corrsrc.transform {X} {ids} {mean} {beta} {a}",
                f"corrsrc.transform {Xn} {ids} {mean} {beta} {a}"]
-        return ls
+        return ls + ["corrsrc.rcond"]               # always the LAST line
 
     @staticmethod
     def _usable(o, sp):
@@ -465,6 +518,24 @@ class CHECK(Check):
                 probs.append(model_problem(f"the exact least-squares beta does not solve the problem lstsq is called with in the source: {mo[7]}"))
             elif proto.p_mat(mo[8]) != to_rows(sp.out, sp.n):
                 probs.append(model_problem("lifted transform with the exact beta differs from alpha*residual + (1-alpha)*original"))
+            # the rcond the source passes to lstsq (recorded during fit) vs the lifted `lstsqRcond` the model's assumption about
+            # the lstsq result is indexed by (`CorrL.lstsqAssumed`; theorem `lifted_lstsq_untruncated` needs `none`)
+            if isinstance(o, dict) and "rcond" in o:
+                want_rc = mo[-1].strip()
+                if want_rc == "bad-op":
+                    probs.append(model_problem("driver does not know corrsrc.rcond"))
+                else:
+                    def same_rc(seen):
+                        if seen == "none" or want_rc == "none":
+                            return seen == want_rc
+                        try:
+                            return F(seen) == F(want_rc)
+                        except (ValueError, ZeroDivisionError):
+                            return False
+                    if len(o["rcond"]) != 1 or not same_rc(o["rcond"][0]):
+                        probs.append(Problem("correspondence", f"fit called np.linalg.lstsq with rcond {o['rcond']} (one call expected), the lifted "
+                                             f"source says {want_rc} (the model assumes the normal equations only for rcond = None)",
+                                             "C15.lifted_lstsq_untruncated"))
             if mo[9] == "bad-op" or [int(t) for t in proto.p_list(mo[9])] != list(case["ids"]):
                 probs.append(model_problem(f"the lifted _create_lookup / _split_X resolve the sensitive ids to {mo[9]}, their positions are {case['ids']}"))
         # ---- implementation vs property oracle ---------------------------------------
@@ -536,7 +607,7 @@ class CHECK(Check):
                 probs.append(Problem("correspondence", f"fitted state has unexpected shape: mean {o.get('mean_shape')}, beta {np.shape(o.get('beta'))}",
                                      "C15.fitted_state"))
                 return probs
-            if len(mo) != 19 or "bad-op" in mo[12:16]:
+            if len(mo) != 20 or "bad-op" in mo[12:16]:
                 return probs + [Problem("harness", f"driver rejected the fitted state: {mo[12:]}")]
             if "bad-op" in mo[16:19] or "bad-op" in mo[5:10]:
                 return probs + [model_problem(f"the model re-built from the lifted source rejects the fitted state: {mo[16:]}")]
@@ -612,11 +683,20 @@ class CHECK(Check):
                 "sensitive_means_differ" if means_differ else "sensitive_means_equal",
                 "ids=sorted" if sorted(sp.ids) == sp.ids else "ids=unsorted",
                 "n<=ms" if sp.n <= sp.ms else "n>ms"]
+        if case["container"] == "dataframe":
+            labels = self._labels(case)
+            lk = case.get("label_kind", "str")
+            tags.append("labels=" + lk)
+            if any(isinstance(c, int) for c in labels):
+                tags.append("int_labels=" + ("equal_positions" if labels == list(range(len(labels))) else
+                                             "valid_other_positions" if any(labels[i] != i and 0 <= labels[i] < len(labels) for i in sp.ids)
+                                             else "not_positions"))
         if len(set(sp.ids)) < len(sp.ids):
             tags.append("ids=repeated")
         if any(any(p) for p in sp.P):
             tags.append("correlation_present")
         if "exc" in o:
             tags.append("raised=" + o["exc"])
-        key = (tuple(map(tuple, case["X"])), tuple(case["ids"]), case["alpha"], case["container"], tuple(map(tuple, case["Xnew"])))
+        key = (tuple(map(tuple, case["X"])), tuple(case["ids"]), case["alpha"], case["container"], tuple(map(tuple, case["Xnew"])),
+               tuple(map(str, self._labels(case))) if case["container"] == "dataframe" else ())
         return key, sp.rank >= 1, tags
